@@ -34,14 +34,16 @@ struct St {
     /// log of the uninvolved hosts
     bystander: Vec<String>,
     crashed: bool,
+    /// current one-way latency p1 -> v in steps (for the arrival step of its SYNs)
+    p1_latency: usize,
 }
 
 struct PeerOp {
     peer: String,
     op: String,
     started: usize,
-    /// step in which the connect of the connection this operation uses was started
-    conn_started: usize,
+    /// step in which the SYN of the connection this operation uses reaches (reached) the victim
+    conn_arrival: usize,
     result: Option<String>,
 }
 
@@ -63,10 +65,12 @@ impl Drop for Guard {
     }
 }
 
+/// `conn_started`: for operations on an existing connection, the arrival step of its SYN
 fn op_start(s: &S, peer: &str, op: &str, conn_started: Option<usize>) -> usize {
     let mut g = s.borrow_mut();
     let step = g.step;
-    g.ops.push(PeerOp { peer: peer.into(), op: op.into(), started: step, conn_started: conn_started.unwrap_or(step), result: None });
+    let lat = if peer == "p1" { g.p1_latency.max(1) } else { 1 };
+    g.ops.push(PeerOp { peer: peer.into(), op: op.into(), started: step, conn_arrival: conn_started.unwrap_or(step + lat), result: None });
     g.ops.len() - 1
 }
 fn op_done(s: &S, id: usize, res: String) {
@@ -353,7 +357,7 @@ async fn tcp_peer(s: S, name: &'static str, start_ms: u64, tag: u8, slow_reader:
     loop {
         if slow_reader {
             let id = op_start(&s, name, "connect", None);
-            let cs = s.borrow().ops[id].started;
+            let cs = s.borrow().ops[id].conn_arrival;
             match TcpStream::connect(("v", 80)).await {
                 Ok(mut st) => {
                     op_done(&s, id, "ok".into());
@@ -380,7 +384,7 @@ async fn tcp_peer(s: S, name: &'static str, start_ms: u64, tag: u8, slow_reader:
             continue;
         }
         let id = op_start(&s, name, "connect", None);
-        let cs = s.borrow().ops[id].started;
+        let cs = s.borrow().ops[id].conn_arrival;
         let st = TcpStream::connect(("v", 80)).await;
         let mut st = match st {
             Ok(st) => {
@@ -509,7 +513,7 @@ struct Run {
     obs: Vec<String>,
 }
 
-fn run_once(work: Work, steps: usize, crash_at: Option<usize>, bounce_after: Option<usize>, second_crash_after: Option<usize>, bounce_only_at: Option<usize>, sel: usize, spawn_kind: usize, readiness: bool) -> Run {
+fn run_once(work: Work, steps: usize, crash_at: Option<usize>, bounce_after: Option<usize>, second_crash_after: Option<usize>, bounce_only_at: Option<usize>, sel: usize, spawn_kind: usize, readiness: bool, double_bounce: bool, reorder: bool) -> Run {
     let mut b = builder(1);
     b.min_message_latency(Duration::from_millis(1)).max_message_latency(Duration::from_millis(1));
     b.tcp_capacity(if matches!(work, Work::TcpNotReading | Work::TcpVictimWrites | Work::TcpVictimDials) { 2 } else { 4 });
@@ -548,6 +552,12 @@ fn run_once(work: Work, steps: usize, crash_at: Option<usize>, bounce_after: Opt
     sim.host("u1", move || bystander(u1.clone(), "u1", "u2"));
     sim.host("u2", move || bystander(u2.clone(), "u2", "u1"));
 
+    st.borrow_mut().p1_latency = 1;
+    if reorder {
+        sim.set_link_latency("p1", "v", Duration::from_millis(5));
+        st.borrow_mut().p1_latency = 5;
+    }
+    let mut reorder_done = !reorder;
     let mut obs = vec![];
     let mut violation: Option<Violation> = None;
     let mut down_since: Option<usize> = None;
@@ -622,6 +632,12 @@ fn run_once(work: Work, steps: usize, crash_at: Option<usize>, bounce_after: Opt
                 down_since = None;
                 expected_starts += 1;
                 obs.push(format!("bounce v before step {k}"));
+                if double_bounce {
+                    // a second bounce right away: the incarnation just created is replaced
+                    bounce(&mut sim);
+                    expected_starts += 1;
+                    obs.push(format!("bounce v again before step {k}"));
+                }
             }
         }
         if bounce_only_at == Some(k) {
@@ -644,6 +660,13 @@ fn run_once(work: Work, steps: usize, crash_at: Option<usize>, bounce_after: Opt
         if let Err(e) = vx_core::catch(|| sim.step()).unwrap_or_else(|p| Err(p.into())) {
             violation = Some(Violation::new("sim-error", e.to_string()));
             break;
+        }
+        if !reorder_done && st.borrow().ops.iter().any(|o| o.peer == "p1" && o.op == "write") {
+            // p1's first data segment is on its way with the long latency: later ones overtake it
+            sim.set_link_latency("p1", "v", Duration::from_millis(1));
+            st.borrow_mut().p1_latency = 1;
+            reorder_done = true;
+            obs.push(format!("after step {k}: p1 -> v latency back to 1 ms (the first data segment is still in flight)"));
         }
         // (b) nothing happens on V while it is down
         if down_since.is_some() {
@@ -686,6 +709,7 @@ pub fn scenario(ch: &mut Chooser, thorough: bool) -> Exec {
     let sel = ch.choose("victim_selection(name|regex-one|regex-two-hosts)", 3);
     let is_tcp = matches!(work, Work::TcpReading | Work::TcpNotReading | Work::TcpSlowAccept | Work::TcpVictimWrites);
     let readiness = matches!(work, Work::TcpNotReading | Work::TcpVictimDials) && ch.flag("peer_writes_with_writable_and_try_write");
+    let reorder = work == Work::TcpNotReading && ch.flag("first_data_segment_delayed_so_later_ones_overtake_it");
     let spawn_kind = if is_tcp { ch.choose("connection_handler(spawn_local|tokio::spawn|alternating)", 3) } else { 0 };
     let (crash_at, bounce_after, second, bounce_only) = match mode {
         0 => {
@@ -697,7 +721,8 @@ pub fn scenario(ch: &mut Chooser, thorough: bool) -> Exec {
             (Some(at), Some(*ch.of("bounce_after_steps", &[1usize, 3])), Some(*ch.of("second_crash_after_steps", &[1usize, 4])), None)
         }
     };
-    let run = run_once(work, steps, crash_at, bounce_after, second, bounce_only, sel, spawn_kind, readiness);
+    let double_bounce = mode == 0 && bounce_after.is_some() && ch.flag("bounce_twice_in_a_row");
+    let run = run_once(work, steps, crash_at, bounce_after, second, bounce_only, sel, spawn_kind, readiness, double_bounce, reorder);
     let mut violation = run.violation;
     let mut obs = run.obs;
     let mut feats: Vec<&'static str> = vec![];
@@ -739,7 +764,7 @@ pub fn scenario(ch: &mut Chooser, thorough: bool) -> Exec {
         let in_down = |step: usize| down.iter().any(|(a, b)| *a <= step && step < *b);
         for o in &g.ops {
             // the SYN of a connect started in step s reaches V in step s+1 (1-tick latency)
-            let arrival = o.conn_started + 1;
+            let arrival = o.conn_arrival;
             if o.op == "accept" {
                 // waiting at its own listener for the next caller: not blocked on the victim
                 continue;
@@ -813,7 +838,7 @@ pub fn scenario(ch: &mut Chooser, thorough: bool) -> Exec {
     drop(g);
     if violation.is_none() {
         // (f) uninvolved hosts: identical to the crash-free twin
-        let twin = run_once(work, steps, None, None, None, None, 0, spawn_kind, readiness);
+        let twin = run_once(work, steps, None, None, None, None, 0, spawn_kind, readiness, false, reorder);
         let tl = twin.st.borrow().bystander.clone();
         if sel != 2 && twin.st.borrow().v_effects[1] != run.st.borrow().v_effects[1] {
             violation = Some(Violation::new(
@@ -838,7 +863,7 @@ pub fn scenario(ch: &mut Chooser, thorough: bool) -> Exec {
     obs.push(format!("work={work:?} ops={:?}", run.st.borrow().ops.iter().map(|o| format!("{}:{}@{}={}", o.peer, o.op, o.started, o.result.as_deref().unwrap_or("pending"))).collect::<Vec<_>>()));
     if let Some(v) = violation.as_mut() {
         v.sig = format!("{}|{:?}", v.clause, work);
-        v.scenario = format!("c04 tier={} work={work:?} crash_at={crash_at:?} bounce_after={bounce_after:?} second={second:?} bounce_only={bounce_only:?} selection={sel} handler={spawn_kind} readiness={readiness}", if thorough { "thorough" } else { "quick" });
+        v.scenario = format!("c04 tier={} work={work:?} crash_at={crash_at:?} bounce_after={bounce_after:?} second={second:?} bounce_only={bounce_only:?} selection={sel} handler={spawn_kind} readiness={readiness} double_bounce={double_bounce} reorder={reorder}", if thorough { "thorough" } else { "quick" });
         v.actions = obs.clone();
     }
     Exec { outcome: Digest::of64(&obs), violation, features: feats }
